@@ -111,12 +111,13 @@ func c13Occurrence(c *vrep.Ctx) {
 		sep  string
 	}{{"none", nil, " "}, {"FlattenWhitespace", []NormalizeFunc{FlattenWhitespace}, " \n  "}}
 	ts := []float64{0.5, 0.8, 1}
-	c.R.Rule = fmt.Sprintf("ALL known-value sets over tokens {a,b,c,','}: every single value of 1..%d tokens, every pair of values of 1..%d tokens (none inside another; second value absent, or both present separated by an unrelated token) and long values of 40/80 tokens, alone or next to a registered near-duplicate (one character of one token changed, 40/80/400 tokens, its name sorting before or after) and values with leading / trailing white space (blank, line break, two blanks) x ALL unknowns pre+K+post with pre/post of 0..%d tokens over {x,y,a} containing exactly one occurrence of K (family 'glued' attaches word or punctuation context without a blank: glued punctuation leaves the copy token aligned and is demanded exactly, glued letters are the recorded finding) x normaliser lists {none, FlattenWhitespace with multi-blank separators} x thresholds %v; MultipleMatch must report K with Confidence 1.0 and Offset/Extent of exactly that copy, NearestMatch(K) = (K, 1.0), all confidences in (0,1], all ranges inside the normalised unknown; library goroutines run as modelled threads (default schedule); non-trivial = distinct (value set, unknown, normaliser, threshold) cases", maxTok, pairTok, maxCtx, ts)
+	c.R.Rule = fmt.Sprintf("ALL known-value sets over tokens {a,b,c,','}: every single value of 1..%d tokens, every pair of values of 1..%d tokens (none inside another; second value absent, or both present: separated by an unrelated token, by one blank, glued, or overlapping) and long values of 40/80 tokens, alone or next to a registered near-duplicate (one character of one token changed, 40/80/400 tokens, its name sorting before or after) and values with leading / trailing white space (blank, line break, two blanks) x ALL unknowns pre+K+post with pre/post of 0..%d tokens over {x,y,a} containing exactly one occurrence of K (family 'glued' attaches word or punctuation context without a blank: glued punctuation leaves the copy token aligned and is demanded exactly, glued letters are the recorded finding) x normaliser lists {none, FlattenWhitespace with multi-blank separators} x thresholds %v; MultipleMatch must report K with Confidence 1.0 and Offset/Extent of exactly that copy, NearestMatch(K) = (K, 1.0), all confidences in (0,1], all ranges inside the normalised unknown; library goroutines run as modelled threads (default schedule); non-trivial = distinct (value set, unknown, normaliser, threshold) cases", maxTok, pairTok, maxCtx, ts)
 	c.Bound("max_value_tokens", maxTok)
 	c.Bound("max_context_tokens", maxCtx)
 	body := func(r *vx.Run) {
 		fam := r.Choose(7, "family") // 0 single value, 1 pair (second value absent), 2 glued context, 3 both values present, 4 long value, 5 long value + registered near-duplicate, 6 value with leading/trailing white space
 		lead, trail := "", ""
+		join := 0
 		name2 := "K2"
 		var k1, k2 c13Value
 		two := false
@@ -132,6 +133,11 @@ func c13Occurrence(c *vrep.Ctx) {
 			k1 = small[r.Choose(len(small), "value1")]
 			k2 = small[r.Choose(len(small), "value2")]
 			two = true
+			if fam == 3 {
+				// how the two copies sit next to each other: an unrelated token between them, one blank,
+				// nothing at all (glued), or overlapping (a suffix of the first is a prefix of the second)
+				join = r.Choose(4, "join")
+			}
 		case 4:
 			// long values (40 / 80 tokens) from a short pattern rotated through the alphabet
 			pat := small[r.Choose(len(small), "pattern")]
@@ -177,8 +183,26 @@ func c13Occurrence(c *vrep.Ctx) {
 		}
 		parts = append(parts, strings.Join(k1.toks, nm.sep))
 		if fam == 3 {
-			// both values present, separated by an unrelated token
-			parts = append(parts, "zq", strings.Join(k2.toks, nm.sep))
+			switch join {
+			case 0: // both values present, separated by an unrelated token
+				parts = append(parts, "zq", strings.Join(k2.toks, nm.sep))
+			case 1: // adjacent, one separator
+				parts = append(parts, strings.Join(k2.toks, nm.sep))
+			case 2: // glued: the second copy starts where the first ends
+				parts[len(parts)-1] += strings.Join(k2.toks, nm.sep)
+			case 3: // overlapping: longest proper suffix of k1 that is a prefix of k2
+				ov := 0
+				for n := 1; n < len(k1.toks) && n < len(k2.toks); n++ {
+					if strings.Join(k1.toks[len(k1.toks)-n:], " ") == strings.Join(k2.toks[:n], " ") {
+						ov = n
+					}
+				}
+				if ov == 0 {
+					r.Note = map[string]interface{}{"skip": true}
+					return
+				}
+				parts = append(parts, strings.Join(k2.toks[ov:], nm.sep))
+			}
 		}
 		if len(post.toks) > 0 {
 			parts = append(parts, strings.Join(post.toks, nm.sep))
@@ -222,10 +246,10 @@ func c13Occurrence(c *vrep.Ctx) {
 			return
 		}
 		if fam == 3 {
-			// the two occurrences must not overlap
+			// the two occurrences must not overlap (join 0-2) / must overlap (join 3)
 			a2 := strings.Index(normU, normK2)
 			a1 := strings.Index(normU, normK)
-			if a1 < a2+len(normK2) && a2 < a1+len(normK) {
+			if (a1 < a2+len(normK2) && a2 < a1+len(normK)) != (join == 3) {
 				r.Note = map[string]interface{}{"skip": true}
 				return
 			}
@@ -239,6 +263,7 @@ func c13Occurrence(c *vrep.Ctx) {
 		})
 		msg := ""
 		onlyMisaligned := false
+		overlapOnly := false
 		switch {
 		case p != "":
 			msg = "panic: " + p
@@ -263,6 +288,24 @@ func c13Occurrence(c *vrep.Ctx) {
 					found = false
 					at, normK = at2, normK2
 				}
+			}
+			if fam == 3 && join == 3 {
+				// recorded finding (uniquify drops a match whose Offset lies inside an accepted one, also when
+				// it is not contained in it): exactly one of the two overlapping copies is reported, exactly
+				// as demanded, and nothing is reported for the other value
+				n1, n2, ok1, ok2 := 0, 0, false, false
+				a1, a2 := strings.Index(normU, cl.normalize(val1)), strings.Index(normU, normK2)
+				for _, m := range ms {
+					if m.Name == "K1" {
+						n1++
+						ok1 = m.Confidence == 1.0 && m.Offset == a1 && m.Extent == len(cl.normalize(val1))
+					}
+					if m.Name == "K2" {
+						n2++
+						ok2 = m.Confidence == 1.0 && m.Offset == a2 && m.Extent == len(normK2)
+					}
+				}
+				overlapOnly = (n1 == 1 && ok1 && n2 == 0) || (n2 == 1 && ok2 && n1 == 0)
 			}
 			if !found {
 				var got []string
@@ -305,7 +348,7 @@ func c13Occurrence(c *vrep.Ctx) {
 			last, _ := utf8.DecodeLastRuneInString(normK)
 			aligned = aligned && (isB(next) || isB(last))
 		}
-		r.Note = map[string]interface{}{"id": id, "msg": msg, "fam": fam, "k1": k1.text(), "aligned": aligned, "onlyMisaligned": onlyMisaligned}
+		r.Note = map[string]interface{}{"id": id, "msg": msg, "fam": fam, "k1": k1.text(), "aligned": aligned, "onlyMisaligned": onlyMisaligned, "overlapOnly": overlapOnly, "join": join}
 	}
 	c.Run(vSplitExplorer(c, 0, 2), body, func(r *vx.Run) {
 		if r.Note["skip"] != nil {
@@ -321,6 +364,9 @@ func c13Occurrence(c *vrep.Ctx) {
 			key := "c13:" + strings.ReplaceAll(id, " ", "_")
 			if r.Note["fam"].(int) == 2 && !r.Note["aligned"].(bool) && r.Note["onlyMisaligned"].(bool) {
 				key = "c13:class:glued-occurrence-not-token-aligned"
+			}
+			if r.Note["fam"].(int) == 3 && r.Note["join"].(int) == 3 && r.Note["overlapOnly"].(bool) {
+				key = "c13:class:overlapping-copies-second-dropped"
 			}
 			c.Violate(key, id+": "+m, r, m)
 		} else {
